@@ -22,6 +22,8 @@ def main():
         sys.exit(selftest.main())
     mod = importlib.import_module(f"fv.props.{a.id.lower()}")
     if a.replay:
+        if not os.path.isabs(a.replay):
+            a.replay = os.path.join(os.environ.get("VERIF_ORIG_PWD", "."), a.replay)
         with open(a.replay) as f:
             rec = json.load(f)
         rc = core.run_check(mod, a.tier, seed, only_case=rec["case"])
